@@ -33,8 +33,8 @@ ASSUMPTIONS = [
 
 OPTS = ["plain", "ratio", "residual", "pull", "asym", "separate"]
 OPTS_THOROUGH = OPTS + ["ratio+asym", "residual+separate", "pull+separate", "pull+asym", "ratio+separate", "asym+separate", "residual+asym+separate"]
-RTOL = 1e-9  # measured deviations on the unchanged tree are <= 3e-15 (see MEASURED in evidence facts)
-BAND_ANALYTIC_RTOL = 1e-5  # kafe2 differentiates numerically; measured <= 2e-9 for the three xy models
+RTOL = 1e-9  # measured deviations on the unchanged tree are <= 2e-15 (recorded per run in the coverage facts)
+BAND_ANALYTIC_RTOL = 1e-7  # kafe2 differentiates numerically (numdifftools); measured <= 1.1e-11 for the xy models used here
 
 
 def opt_kwargs(opt):
@@ -114,7 +114,7 @@ class Rec(object):
     def cmp(self, observable, actual, expected, cls, rtol=RTOL):
         self.n += 1
         ok = R.close(actual, expected, rtol=rtol)
-        if ok:
+        if ok and rtol == RTOL:
             d = R.maxdev(actual, expected)
             if d == d:
                 self.maxdev = max(self.maxdev, d)
@@ -371,10 +371,11 @@ def check_legend(rec, label, fig, worlds, asym):
                 ok, exp = agree(p["err"], lambda f: f.parameter_errors[i])
                 rec.truth(ptag + ":error", ok, exp, p["err"].text, (w.ftype, "legend", "error"))
             if p["up"] is not None:
-                ok, exp = agree(p["up"], lambda f: abs(f.asymmetric_parameter_errors[i][1]))
-                rec.truth(ptag + ":error_up", ok, exp, p["up"].text, (w.ftype, "legend", "error_up"))
-                ok, exp = agree(p["down"], lambda f: abs(f.asymmetric_parameter_errors[i][0]))
-                rec.truth(ptag + ":error_down", ok, exp, p["down"].text, (w.ftype, "legend", "error_down"))
+                # asymmetric errors are only ever read from the plotted fit (which cached them during the plot call):
+                # reading them from the reference twin would re-minimise the twin and spoil it as 'state after do_fit()'
+                ae = w.fit.asymmetric_parameter_errors[i]
+                rec.truth(ptag + ":error_up", p["up"].agrees(abs(ae[1])), float(ae[1]), p["up"].text, (w.ftype, "legend", "error_up"))
+                rec.truth(ptag + ":error_down", p["down"].agrees(abs(ae[0])), float(ae[0]), p["down"].text, (w.ftype, "legend", "error_down"))
             if valid and not asym:
                 rec.truth(ptag + ":error_shown", p["err"] is not None, float(fit.parameter_errors[i]), "no uncertainty displayed", (w.ftype, "legend", "error_shown"))
             if valid and asym and w.fit.asymmetric_parameter_errors is not None:
@@ -603,7 +604,7 @@ def run_job(spec):
                 res.violation(s, mcfg, mb["observable"], mb["expected"], mb["actual"], mb["mode"])
     # measured basis of the tolerance: largest relative deviation among accepted comparisons, in decades
     if worst > 0:
-        res.facts["max-accepted-relative-deviation<=1e%d" % int(np.ceil(np.log10(worst)))] += 1
+        res.facts["max-accepted-relative-deviation-of-exact-comparisons<=1e%d" % int(np.ceil(np.log10(worst)))] += 1
     res.sample(dict(fit=ftype, uncertainties=unc, axes=axes, valuation=v, options=opts, fits_on_plot=rolesets))
     return res.as_dict()
 
